@@ -101,6 +101,19 @@ PoolC02desc2(hostAxes) ==
                    \cup {Call("not", <<x>>) : x \in PredPaths2({"descendant", "descendant-or-self", "child"}, TestsA)}
                    \cup {Bin("=", x, Lit("1")) : x \in PredPaths2({"descendant", "descendant-or-self", "child"}, TestsA)}}
 
+\* a predicate-carrying step CONTINUED by a further step (the builder hands its "smart descendant"
+\* flag from the continuation through the filter to the host step), also through '//'
+ContPreds == {Rel1("ancestor", NTName("a")), Path(FALSE, <<Step("parent", NTAny, <<>>), Step("parent", NTAny, <<>>)>>),
+              Call("not", <<Rel1("child", NTAny)>>), Bin("=", SelfDot, Lit("1")), Rel1("following-sibling", NTAny),
+              Rel1("descendant", NTName("a")), Bin("=", Call("local-name", <<>>), Lit("a"))}
+PoolC02cont(hostAxes, contAxes) ==
+    {Path(FALSE, <<Step(hax, hnt, <<p>>), Step(cax, cnt, <<>>)>>) :
+        hax \in hostAxes, hnt \in TestsA, cax \in contAxes, cnt \in TestsA, p \in ContPreds}
+    \cup {Path(FALSE, <<Step(hax, hnt, <<p>>), DosNode, Step("child", cnt, <<>>)>>) :
+        hax \in hostAxes, hnt \in TestsA, cnt \in TestsA, p \in ContPreds}
+    \cup {Path(FALSE, <<Step(hax, hnt, <<p, q>>), Step(cax, NTAny, <<>>)>>) :
+        hax \in hostAxes, hnt \in TestsA, cax \in {"descendant", "descendant-or-self", "child"}, p \in ContPreds, q \in ContPreds}
+
 \* parenthesised path followed by a boolean predicate:  (path)[p]
 PoolC02paren(paths, A) == {Filter(pa, <<p>>, <<>>) : pa \in paths, p \in A}
 \* ... followed by several predicates, and by further steps
